@@ -20,7 +20,7 @@ TIERS = {
     "thorough": {"shards": 16, "n": 12000, "budget_s": 2700},
 }
 FLOOR = {"quick": 300, "thorough": 20000}
-REQUIRED_LABELS = {"quick": ["d:neg-int", "d:float-exp", "d:bool", "d:str", "d:None", "d:code", "kind:literal", "kind:union", "descr:long-token", "kind:undocumented-param"], "thorough": []}
+REQUIRED_LABELS = {"quick": ["d:neg-int", "d:float-exp", "d:bool", "d:str", "d:None", "d:code", "kind:literal", "kind:union", "descr:long-token", "undocumented-param"], "thorough": []}
 ASSUMPTIONS = [
     "descriptions are drawn from a vocabulary free of the type-hint trigger words (quantifier of C01)",
     "string defaults are non-empty and dot-free (P12 is recorded as a finding and exercised by C08/C11/C14)",
@@ -43,7 +43,6 @@ def undocumented_some(draw):
     idx = draw(st.lists(st.integers(0, len(case["params"]) - 1), min_size=1, max_size=3, unique=True))
     for i in idx:
         case["params"][i][1]["doc"] = ""
-    case["kinds"] = list(case["kinds"]) + ["undocumented-param"]
     return case
 
 
@@ -224,6 +223,8 @@ def oracle(case):
             continue
         check_cell(r, case, ir, cell)
     r.label(*gen_ir.labels_of(case))
+    if any(not p.get("doc") for _n, p in case["params"]):
+        r.label("undocumented-param")
     r.label("suffix-legal" if suffix else "non-suffix(rest only)")
     r.nontrivial = len(case["params"]) >= 2 and any("default" in p for _n, p in case["params"])
     return r
